@@ -707,7 +707,10 @@ def boundary_strings(mn: int, mx: int) -> List[str]:
 VERSION_POOL = ["", "0", "1", "9", "00", "01", "10", "9999", "0999", "10000", "a", "1a", "a1", "١", "1١", "١٢", "1.0", "-1",
                 "+1", " 1", "1 ", "1\n", "²"]
 ID_SHORT_POOL = ["", "a", "A", "z", "Z", "a1", "a_", "_a", "1a", "a-b", "a b", "a.b", "ä", "aä", "äa", "a\n", "a" * 128, "a" * 129,
-                 "A" * 127 + "_", "a" * 127 + "-", "@", "[", "`", "{", "/", ":", "aZ09_", "Ab_9", "١a", "a١", "ǅ", "aǅ"]
+                 "A" * 127 + "_", "a" * 127 + "-", "@", "[", "`", "{", "/", ":", "aZ09_", "Ab_9", "١a", "a١", "ǅ", "aǅ",
+                 # (round 8) letters that FOLD onto ASCII letters (case-insensitive or compatibility matching): Kelvin sign, long s, dotted I /
+                 # dotless i, Angstrom sign, full-width a - none of them is in [a-zA-Z]
+                 "\u212a", "a\u212a", "\u212a1", "Temperature_\u212a", "\u017f", "a\u017f", "\u0130", "a\u0130", "\u0131x", "a\u0131", "\u212b", "\uff41", "a\uff41"]
 TAGS_ASCII = ["en", "de", "en-US", "de-", "e", "E", "EN", "En", "eN", "eng", "e1", "1e", "-", "-en", "", "e-", "en_US", "a b", "zz", "az",
               "aZ", "a`", "a{", "`a", "en-" + "x" * 40,
               # (round 7) line ends and blanks at the end of the language code: not part of a tag ('$' of a regular expression matches before a final newline)
